@@ -78,6 +78,8 @@ class Prop(PropBase):
         x = g.standard_normal(shape) + 2.0
         if case["dtype"] in ("c8", "c16"):
             x = x + 1j * (g.standard_normal(shape) + 2.0)
+        if case["seed"] % 5 == 0:
+            x = x * [1e-9, 1e-12][case["seed"] % 2]          # weak signals: the operation is linear (no absolute tolerances)
         x = x.astype({"f4": "f4", "f8": "f8", "c8": "c8", "c16": "c16"}[case["dtype"]])
         if case["seed"] % 3 == 1 and x.ndim > 1:
             x = np.asfortranarray(x)                 # same values, column-major buffer
